@@ -182,7 +182,7 @@ Lemma inverse_iff_default_true s pos p taken :
   is_true_bool (arg_opts (s_deco s) pos p taken) = wants_inverse s p.
 Proof.
   unfold wants_inverse, is_true_bool, arg_opts; cbn.
-  destruct (p_default p) as [| | | |[|]|]; cbn;
+  destruct (p_default p) as [| | | |[|]| |]; cbn;
     destruct (mem (p_name p) (d_iterable (s_deco s)));
     destruct (mem (p_name p) (d_optional (s_deco s))); cbn; reflexivity.
 Qed.
@@ -196,9 +196,20 @@ Lemma fresh_value_arg_opts s pos p taken :
   end.
 Proof.
   unfold fresh_value, initial_value, listish, arg_opts; cbn.
-  destruct (p_default p) as [| |x|z|b|l]; cbn; auto;
+  destruct (p_default p) as [| |x|z|b|l|ty rp]; cbn; auto;
     destruct (mem (p_name p) (d_iterable (s_deco s)));
     destruct (mem (p_name p) (d_optional (s_deco s)));
     destruct (mem (p_name p) (d_incrementable (s_deco s))); cbn; auto;
     try (destruct b; cbn; auto); try (destruct l; cbn; auto).
+Qed.
+
+(** the value type by name, for every kind of default (float, tuple, ... included) *)
+Lemma kind_name_expected s p nm :
+  expected_kind_name s p = Some nm -> kind_name (s_deco s) p = nm.
+Proof.
+  unfold expected_kind_name, kind_name, type_name.
+  destruct (p_default p) as [| |x|z|b|l|ty rp]; cbn;
+    destruct (mem (p_name p) (d_iterable (s_deco s)));
+    destruct (mem (p_name p) (d_optional (s_deco s))); cbn; intros H; try congruence;
+    destruct (String.eqb ty "bool"); congruence.
 Qed.
